@@ -127,6 +127,57 @@ func c03Grouped(c *mon.Ctx, r *rand.Rand) {
 			return
 		}
 	}
+	// an emptiness guard in front of a quantifier over the same thing, where
+	// the thing is empty and not something a quantifier can walk
+	gd := map[string]interface{}{"es": "", "ec": make(chan int, 1), "em": map[int]int{}, "eb": []byte{}, "ns": "abc", "n": 0, "nil": nil}
+	galone := func(text string) string {
+		ev, err, pan, _ := createEval(text)
+		if pan != "" || err != nil {
+			return "rejected"
+		}
+		return evaluate(ev, gd).Class3()
+	}
+	for _, x := range []string{"es", "ec", "em", "eb", "ns", "n", "nil", "zz"} {
+		for _, q := range []string{"any " + x + " as v { v == 1 }", "all " + x + " as v { v == 1 }", "any " + x + " as k, v { k == v }"} {
+			for _, g := range []string{x + " is not empty", x + " is empty"} {
+				ga, gb := galone(g), galone(q)
+				for _, f := range []struct{ text, want string }{{g + " and (" + q + ")", andTable(ga, gb)}, {g + " or " + q, orTable(ga, gb)}, {"not (" + g + ") or " + q, orTable(notTable(ga), gb)}} {
+					if got := galone(f.text); got != f.want {
+						c.Violation(fmt.Sprintf("C03 guarded-quantifier got=%s want=%s", got, f.want), "an emptiness test followed by a quantifier over the same selector is not the table value of the two", map[string]any{"composite": f.text, "guard_alone": ga, "quantifier_alone": gb, "observed": got, "expected": f.want})
+						return
+					}
+					c.Evals(1)
+				}
+			}
+		}
+	}
+	// a chain of 64..130 operands one of whose operands is itself a chain of 64..130
+	n1, n2 := 64+r.Intn(67), 64+r.Intn(67)
+	mk := func(n int, conn string, last string) string {
+		parts := make([]string, n)
+		for i := range parts {
+			parts[i] = []string{`c == ")"`, `d == "(("`}[i%2] // both true
+			if conn == " or " {
+				parts[i] = []string{`c == "x"`, `d == "y"`}[i%2] // both false
+			}
+		}
+		parts[n-1] = last
+		return strings.Join(parts, conn)
+	}
+	for _, nc := range []struct{ text, want string }{
+		{mk(n1, " and ", "("+mk(n2, " or ", `c == ")"`)+")"), "T"},
+		{mk(n1, " and ", "("+mk(n2, " or ", `c == "x"`)+")"), "F"},
+		{mk(n1, " or ", "("+mk(n2, " and ", `c == ")"`)+")"), "T"},
+		{mk(n1, " or ", "("+mk(n2, " and ", `c == "x"`)+")"), "F"},
+		{"(" + mk(n2, " and ", `c == "x"`) + ") or (" + mk(n1, " or ", `d == "(("`) + ")", "T"},
+		{"(" + mk(n2, " and ", `c == ")"`) + ") and not (" + mk(n1, " or ", `zz == 1`) + ")", "E"},
+	} {
+		if got := alone(nc.text); got != nc.want {
+			c.Violation(fmt.Sprintf("C03 nested-long-chains got=%s want=%s", got, nc.want), "a long chain that contains another long chain as an operand does not have the table value of its operands", map[string]any{"outer_operands": n1, "inner_operands": n2, "shape": clip(nc.text, 120), "observed": got, "expected": nc.want})
+			return
+		}
+		c.Evals(1)
+	}
 	c.Count("grouped_operand_cases")
 }
 
@@ -208,6 +259,16 @@ func c03Run(c *mon.Ctx, idx int) {
 				B = &qb
 				c.Count("sibling_quantifier_operands")
 			}
+		}
+		// an emptiness guard in front of a quantifier over the SAME selector:
+		// `X is not empty and (any X as ...)`, `X is empty or (all X as ...)`
+		if qb, ok := B.(*xgen.Quant); ok && r.Intn(3) == 0 {
+			op := xgen.OpNotEmpty
+			if r.Intn(2) == 0 {
+				op = xgen.OpEmpty
+			}
+			A = &xgen.Match{Sel: qb.Sel.Clone(), Op: op}
+			c.Count("guarded_quantifier_operands")
 		}
 		oa, ta, ok1 := evalText(A, r, node, opt)
 		ob, tb, ok2 := evalText(B, r, node, opt)
@@ -644,7 +705,7 @@ func init() {
 		NumCases:    func(tier string) int { return tierN(tier, 8000, 150000) },
 		Run:         c03Run,
 		Required: func(tier string) []string {
-			l := []string{"quantified_operand", "collision_datum_cases", "colliding_twin_operands", "matches_twin_operands", "sibling_quantifier_operands", "grouped_operand_cases", "long_chains", "very_long_chains", "cell:not/T", "cell:not/F", "cell:not/E"}
+			l := []string{"quantified_operand", "collision_datum_cases", "colliding_twin_operands", "matches_twin_operands", "sibling_quantifier_operands", "guarded_quantifier_operands", "grouped_operand_cases", "long_chains", "very_long_chains", "cell:not/T", "cell:not/F", "cell:not/E"}
 			for _, op := range []string{"and", "or"} {
 				for _, a := range []string{"T", "F", "E"} {
 					for _, b := range []string{"T", "F", "E"} {
